@@ -62,7 +62,10 @@ structure State (σ τ : Type) where
 /-- what the environment decides in a main-thread step -/
 inductive MainP where
   | none
-  | collect (errs : List (String × Bool)) (garbage : Bool)     -- failed/skipped collect reports; an undecodable message afterwards
+  | collect (errs : List (String × Bool)) (garbage : Bool) (interrupt : Bool) (sf : Option String)
+      -- failed/skipped collect reports; an undecodable message afterwards; the worker's session is interrupted
+      -- (Ctrl-C, `pytest.exit()`) before it enters the test loop; `session.shouldfail` afterwards (collection errors count
+      -- against `--maxfail`)
   | reports (fs : List Bool) (sf ss : Option String) (exit : Bool)  -- the test's reports; the session's stop flags afterwards; pytest.exit
   | complete (slow : Bool)
   deriving Repr
@@ -94,13 +97,15 @@ def mainStep (k : Nat) (w : Wk τ) (p : MainP) : Option (Wk τ) :=
   | .boot => some { w with outbox := w.outbox ++ [.ev (.workerready k)], phase := .collect }
   | .collect =>
     match p with
-    | .collect errs garbage =>
+    | .collect errs garbage interrupt sf =>
       let msgs : List (WMsg τ) := [.ignored] ++ errs.map (fun e => .ev (.collectreport k e.1 e.2)) ++ [.ev (.collectionfinish k w.ids)]
-      if errs.any (·.2) then
-        -- "Interrupted: N errors during collection": the worker's session ends with exit status 2 (skips do not count)
-        some { w with outbox := w.outbox ++ msgs, exitstatus := 2, phase := .finish }
+      if interrupt then
+        -- the worker's session ends with exit status 2 before `pytest_runtestloop`
+        some { w with outbox := w.outbox ++ msgs, exitstatus := 2, phase := .finish, sf := sf }
       else
-        some { w with outbox := w.outbox ++ msgs ++ (if garbage then [.garbage] else []), phase := .loop, cbSet := true }
+        -- collection errors do not keep an xdist worker from running tests: its own `pytest_runtestloop` takes precedence
+        -- over the one of `_pytest.main` that raises "Interrupted: N errors during collection"
+        some { w with outbox := w.outbox ++ msgs ++ (if garbage then [.garbage] else []), phase := .loop, cbSet := true, sf := sf }
     | _ => none
   | .loop =>
     match w.w.pc with
